@@ -121,26 +121,25 @@ Qed.
 Theorem drop_writer_total w : psafe (drop_writer w).
 Proof. apply psafe_unlink_quiet. exact I. Qed.
 
-Theorem close_writer_total w : psafe (close_writer hash w).
+Theorem publish_total w cp sri : psafe (publish w cp sri).
 Proof.
-  unfold close_writer. destruct (wf_sri_cpath _ (wf_sri_computed (w_algo w) (w_data w))) as [cp ->].
-  intros f. cbn [run]. destruct (exec (MkdirAll (parent cp)) f) as [r0 f0].
-  assert (forall f, safe (fst (run (bind (match w_map w with
-                   | Some sz => if w_pos w <? sz then step_ok (Truncate (w_tmp w) (w_pos w)) else Ret (Ok tt)
-                   | None => Ret (Ok tt) end) (fun rt => match rt with
-            | Ok _ => Do (Rename (w_tmp w) (InCache cp)) (fun r => match r with
+  intros f. unfold publish. cbn [run]. destruct (exec (MkdirAll (parent cp)) f) as [r0 f0].
+  assert (forall f2, safe (fst (run (Do (Rename (w_tmp w) (InCache cp)) (fun r => match r with
                   | RErr _ => Do (Exists (InCache cp)) (fun r2 => match r2 with
-                        | RBool true => unlink_quiet (w_tmp w) (Ok (sri_of hash (w_algo w) (w_data w)))
+                        | RBool true => unlink_quiet (w_tmp w) (Ok sri)
                         | _ => unlink_quiet (w_tmp w) (Err EIoErr) end)
-                  | _ => Ret (Ok (sri_of hash (w_algo w) (w_data w))) end)
-            | _ => unlink_quiet (w_tmp w) (Err EIoErr) end)) f))) as Hrest.
-  { intros f'. rewrite run_bind.
-    destruct (run (match w_map w with Some sz => if w_pos w <? sz then step_ok (Truncate (w_tmp w) (w_pos w)) else Ret (Ok tt) | None => Ret (Ok tt) end) f') as [rt f2].
-    destruct rt; try (apply psafe_unlink_quiet; exact I).
-    cbn [run]. destruct (exec (Rename (w_tmp w) (InCache cp)) f2) as [r f3].
+                  | _ => Ret (Ok sri) end)) f2))) as Hrest.
+  { intros f2. cbn [run]. destruct (exec (Rename (w_tmp w) (InCache cp)) f2) as [r f3].
     destruct r; try exact I. cbn [run]. destruct (exec (Exists (InCache cp)) f3) as [r2 f4].
     destruct r2 as [| |[|]| | | |]; apply psafe_unlink_quiet; exact I. }
   destruct r0; try apply Hrest. apply psafe_unlink_quiet. exact I.
+Qed.
+
+Theorem close_writer_total w : psafe (close_writer hash w).
+Proof.
+  unfold close_writer. destruct (wf_sri_cpath _ (wf_sri_computed (w_algo w) (w_data w))) as [cp ->].
+  intros f. rewrite run_bind. destruct (run (trim w) f) as [rt f2]. cbn [fst snd].
+  destruct rt; try (apply psafe_unlink_quiet; exact I). apply publish_total.
 Qed.
 
 Theorem commit_total w now : psafe (commit hash w now).
@@ -350,6 +349,37 @@ Proof.
   intros H. rewrite (ropen_hash_sri _ _ _ H). apply Hwf. reflexivity.
 Qed.
 
+(* chunks through writers, with or without a pending answer of an abandoned write *)
+Lemma plain_chunk_total s w ws d : osafe (fst (plain_chunk s w ws d)) /\ s_r (snd (plain_chunk s w ws d)) = s_r s.
+Proof.
+  unfold plain_chunk. pose proof (write_chunk_total ws d (s_fs s)) as H. destruct (run (write_chunk ws d) (s_fs s)) as [r f]. cbn [fst] in H.
+  destruct r; try contradiction; cbn [fst snd osafe safe rmap]; (split; [exact I|reflexivity]).
+Qed.
+Lemma start_abandoned_total s w ws d : osafe (fst (start_abandoned s w ws d)) /\ s_r (snd (start_abandoned s w ws d)) = s_r s.
+Proof.
+  unfold start_abandoned. destruct (run (write_chunk ws d) (s_fs s)) as [r f].
+  destruct r; cbn [fst snd osafe safe]; (split; [exact I|reflexivity]).
+Qed.
+Lemma write1_pending_total s w ws p d : osafe (fst (write1_pending s w ws p d)) /\ s_r (snd (write1_pending s w ws p d)) = s_r s.
+Proof.
+  unfold write1_pending. destruct p as [n|]; [|cbn [fst snd osafe safe]; split; [exact I|reflexivity]].
+  destruct (n <=? lenN d); [cbn [fst snd osafe safe]; split; [exact I|reflexivity]|].
+  destruct (plain_chunk_total (clear_p s w) w ws d) as [H1 H2]. split; [exact H1|rewrite H2; reflexivity].
+Qed.
+Lemma write_all_pending_total s w ws p d : osafe (fst (write_all_pending s w ws p d)) /\ s_r (snd (write_all_pending s w ws p d)) = s_r s.
+Proof.
+  unfold write_all_pending. destruct d as [|b d]; [cbn [fst snd osafe safe]; split; [exact I|reflexivity]|].
+  destruct p as [n|]; [|cbn [fst snd osafe safe]; split; [exact I|reflexivity]].
+  destruct (n <=? lenN (b :: d)).
+  - destruct (n =? 0); [cbn [fst snd osafe safe]; split; [exact I|reflexivity]|].
+    destruct (dropN n (b :: d)) as [|b' rest]; [cbn [fst snd osafe safe]; split; [exact I|reflexivity]|].
+    destruct (plain_chunk_total (ack (clear_p s w) w ws n) w (with_written ws (w_written ws + n)) (b' :: rest)) as [H1 H2].
+    destruct (plain_chunk (ack (clear_p s w) w ws n) w (with_written ws (w_written ws + n)) (b' :: rest)) as [o s3].
+    cbn [fst snd] in *. split; [|rewrite H2; reflexivity].
+    destruct o as [[v|e| | |]|]; cbn [osafe safe] in *; try exact I; exact H1.
+  - destruct (plain_chunk_total (clear_p s w) w ws (b :: d)) as [H1 H2]. split; [exact H1|rewrite H2; reflexivity].
+Qed.
+
 Theorem step_total s o now :
   sinv s -> wf_op o -> osafe (fst (step hash s o now)) /\ sinv (snd (step hash s o now)).
 Proof.
@@ -362,8 +392,9 @@ Proof.
   - pose proof (open_writer_total fl key o (s_fs s)) as H. destruct (run (open_writer fl key o) (s_fs s)) as [r f]. cbn [fst] in H.
     destruct r; try contradiction; cbn [fst snd osafe safe rmap]; (split; [exact I|exact (sinv_same s _ Hs eq_refl)]).
   - destruct (hget w (s_w s)) as [ws|]; [|split; [exact I|exact Hs]].
-    pose proof (write_chunk_total ws d (s_fs s)) as H. destruct (run (write_chunk ws d) (s_fs s)) as [r f]. cbn [fst] in H.
-    destruct r; try contradiction; cbn [fst snd osafe safe rmap]; (split; [exact I|exact (sinv_same s _ Hs eq_refl)]).
+    destruct (hget w (s_p s)) as [p|].
+    + destruct (write_all_pending_total s w ws p d) as [H1 H2]. split; [exact H1|exact (sinv_same s _ Hs H2)].
+    + destruct (plain_chunk_total s w ws d) as [H1 H2]. split; [exact H1|exact (sinv_same s _ Hs H2)].
   - destruct (hget w (s_w s)) as [ws|]; [|split; [exact I|exact Hs]].
     pose proof (commit_total ws now (s_fs s)) as H. destruct (run (commit hash ws now) (s_fs s)) as [r f]. cbn [fst] in H.
     cbn [fst snd osafe]. split; [apply safe_rmap; exact H|exact (sinv_same s _ Hs eq_refl)].
@@ -412,6 +443,16 @@ Proof.
     cbn [fst snd osafe]. split; [apply safe_rmap; exact H|exact (sinv_same s _ Hs eq_refl)].
   - destruct (hget l (s_l s)) as [ls|]; [|split; [exact I|exact Hs]].
     cbn [fst snd osafe safe]. split; [exact I|exact (sinv_same s _ Hs eq_refl)].
+  - destruct (hget w (s_w s)) as [ws|]; [|split; [exact I|exact Hs]].
+    destruct (hget w (s_p s)) as [[n|]|].
+    + destruct (n <=? lenN d); [cbn [fst snd osafe safe]; split; [exact I|exact (sinv_same s _ Hs eq_refl)]|].
+      destruct (start_abandoned_total (clear_p s w) w ws d) as [H1 H2]. split; [exact H1|exact (sinv_same s _ Hs H2)].
+    + cbn [fst snd osafe safe]. split; [exact I|exact (sinv_same s _ Hs eq_refl)].
+    + destruct (start_abandoned_total s w ws d) as [H1 H2]. split; [exact H1|exact (sinv_same s _ Hs H2)].
+  - destruct (hget w (s_w s)) as [ws|]; [|split; [exact I|exact Hs]].
+    destruct (hget w (s_p s)) as [p|].
+    + destruct (write1_pending_total s w ws p d) as [H1 H2]. split; [exact H1|exact (sinv_same s _ Hs H2)].
+    + destruct (plain_chunk_total s w ws d) as [H1 H2]. split; [exact H1|exact (sinv_same s _ Hs H2)].
   - split; [exact I|exact (sinv_same s _ Hs eq_refl)].
   - split; [exact I|exact (sinv_same s _ Hs eq_refl)].
   - split; [exact I|exact (sinv_same s _ Hs eq_refl)].
